@@ -115,6 +115,16 @@ func (mi *MessageInfo) initOneofFieldCoders(od protoreflect.OneofDescriptor, si 
 			}
 			return info.funcs.isInit(p, info)
 		}
+		// Unmarshal only trusts the initialized result of a field whose
+		// coder has an isInit function. Each oneof member reports that
+		// result for itself, so mark the other members as well; the check
+		// for the oneof as a whole is performed through the first member.
+		for i, lim := 1, fields.Len(); i < lim; i++ {
+			cf := mi.coderFields[fields.Get(i).Number()]
+			if cf.funcs.isInit == nil {
+				cf.funcs.isInit = func(pointer, *coderFieldInfo) error { return nil }
+			}
+		}
 	}
 }
 
